@@ -380,7 +380,12 @@ GARBAGE = [{'jsonrpc': '2.0', 'id': 1, 'result': 5, 'error': None}, [{'jsonrpc':
            {'jsonrpc': '1.0', 'id': None, 'error': {'code': 1, 'message': 'm'}}, {'jsonrpc': '2.0', 'id': None, 'error': {'code': '1', 'message': 'm'}},
            {'jsonrpc': '2.0', 'id': None, 'error': 'boom'}, [1], [None], [[]], ['x'], [{}], [{'jsonrpc': '2.0', 'id': 1}],
            [{'jsonrpc': '2.0', 'id': 1, 'result': 1, 'error': {'code': 1, 'message': 'm'}}], [{'jsonrpc': '2.0', 'id': 1, 'error': {'code': 1}}],
-           [{'id': 1, 'result': 1}], [{'jsonrpc': '2.0', 'id': [1], 'result': 1}], [{'jsonrpc': '2.0', 'id': {}, 'result': 1}]]
+           [{'id': 1, 'result': 1}], [{'jsonrpc': '2.0', 'id': [1], 'result': 1}], [{'jsonrpc': '2.0', 'id': {}, 'result': 1}],
+           # error objects lacking a required member although their code is one the library has an error class (with a default
+           # message) for
+           {'jsonrpc': '2.0', 'id': 1, 'error': {'code': -32601}}, [{'jsonrpc': '2.0', 'id': 1, 'error': {'code': -32602, 'data': 'd'}}],
+           {'jsonrpc': '2.0', 'id': None, 'error': {'code': -32000}}, [{'jsonrpc': '2.0', 'id': 1, 'error': {'message': 'Method not found'}}],
+           {'jsonrpc': '2.0', 'id': 1, 'error': {'code': -32603, 'message': None}}]
 NONJSON = ['', 'not json', '[', '{"jsonrpc":"2.0","id":1,"result":1', 'NaN']
 
 
